@@ -211,3 +211,33 @@ def emit_update_invariant(R, fam):
     info = {"functions": [{"name": "Grid%s::updateGrid" % fam, "file": p.rel, "line": p.line, "loops": 0}], "rules_fired": {k: v for k, v in R.counts.items() if v},
             "fidelity": X.fidelity(p.body, b, extra_vocab=["makeGrid", "clearRefinement", "proposeUpdatedTensors", "selectTensors", "updated_tensors", "tensors", "MultiIndexSet", "empty", "points", "num_outputs", "-", "+=", "="], slack=40)}
     return '#line %d "%s"\nvoid updateGrid_%s(GU *self)%s\n' % (p.line, X.REPO + "/" + p.rel, fam, b), info
+
+
+IOH = "SparseGrids/tsgIOHelpers.hpp"
+def emit_rulemap(R):
+    """IO::getIntRuleMap, IO::getRuleInt(int) and IO::getRuleInt(TypeOneDRule): the integer codes of the rules in binary files."""
+    text = X.strip_comments(X.read_source(IOH))
+    outs, fns, srcs, emis = [], [], [], []
+    (p,) = X.cut(IOH, r'inline\s+std::vector<TypeOneDRule>\s+getIntRuleMap\s*\(\s*\)', text)
+    b = R.sub("R5-return-init-list", r'return\s*\{([^}]*)\}\s*;', r'static const TypeOneDRule tab_[] = {\1}; *n_ = sizeof(tab_) / sizeof(tab_[0]); return tab_;', p.body)
+    outs.append('#line %d "%s"\nconst TypeOneDRule *getIntRuleMap(size_t *n_)%s' % (p.line, X.REPO + "/" + p.rel, b))
+    fns.append({"name": "IO::getIntRuleMap", "file": p.rel, "line": p.line, "loops": 0}); srcs.append(p.body); emis.append(b)
+    for nm, sig, chdr in (("getRuleInt(int)", r'inline\s+TypeOneDRule\s+getRuleInt\s*\(\s*int\s+r\s*\)', "TypeOneDRule getRuleInt_from_int(int r)"),
+                          ("getRuleInt(TypeOneDRule)", r'inline\s+int\s+getRuleInt\s*\(\s*TypeOneDRule\s+rule\s*\)', "int getRuleInt_from_rule(TypeOneDRule rule)")):
+        (p,) = X.cut(IOH, sig, text)
+        b = p.body
+        b = R.sub("R5-local-vector", r'auto\s+rmap\s*=\s*getIntRuleMap\(\)\s*;', 'size_t rmap_size; const TypeOneDRule *rmap = getIntRuleMap(&rmap_size);', b)
+        b = R.sub("R5-size", r'\brmap\.size\(\)', 'rmap_size', b)
+        # std::distance(begin, std::find_if(begin, end, [&](T v)->bool{ return (PRED); }))  ->  index of the first element with PRED, or the size
+        b = R.sub("R7-find-if-index", r'std::distance\(\s*rmap\.begin\(\)\s*,\s*std::find_if\(\s*rmap\.begin\(\)\s*,\s*rmap\.end\(\)\s*,\s*\[&\]\s*\(\s*TypeOneDRule\s+(\w+)\s*\)\s*->\s*bool\s*\{\s*return\s*([^;]*);\s*\}\s*\)\s*\)',
+                  lambda m: "tsg_find_index(rmap, rmap_size, rule) /* first k with %s */" % re.sub(r'\b%s\b' % m.group(1), 'rmap[k]', m.group(2)).strip(), b)
+        X.check_leftover(b, nm)
+        outs.append('#line %d "%s"\n%s%s' % (p.line, X.REPO + "/" + p.rel, chdr, b))
+        fns.append({"name": "IO::" + nm, "file": p.rel, "line": p.line, "loops": 0}); srcs.append(p.body); emis.append(b)
+    m = re.search(r'first k with \(?\s*rmap\[k\]\s*==\s*rule\s*\)?', "\n".join(emis))
+    if not m:
+        raise X.ExtractionBreak("getRuleInt(TypeOneDRule): the search predicate is no longer `r == rule`; tsg_find_index must follow")
+    R.require({"R5-return-init-list": 1, "R5-local-vector": 2, "R7-find-if-index": 1})
+    info = {"functions": fns, "rules_fired": {k: v for k, v in R.counts.items() if v},
+            "fidelity": X.fidelity("\n".join(srcs), "\n".join(emis), extra_vocab=["auto", "rmap", "getIntRuleMap", "size", "std", "distance", "find_if", "begin", "end", "TypeOneDRule", "r", "rule", "bool", "return", "==", "[", "]", "&", "->", "(", ")"], slack=30)}
+    return "\n".join(outs) + "\n", info
